@@ -296,3 +296,50 @@ func replaceAll(s, old, new string) string {
 		s = s[i+len(old):]
 	}
 }
+
+// VHC09TwoStores: two successive stores through indices into the same array: the second
+// may land in a slot the first one padded; exactly the two addressed elements change.
+func VHC09TwoStores() {
+	i1 := c09Indices[vh.Choose("i1", len(c09Indices))]
+	i2 := c09Indices[vh.Choose("i2", len(c09Indices))]
+	doc := c09Doc(1)
+	doc["i"], doc["j"] = i1, i2
+	form := vh.Choose("form", 3)
+	second := []string{"$.arr[$.j] = 'x'", "$.arr[$.j] += 2", "$.arr[$.j]++"}[form]
+	back, _, k := c09Run("{ $.arr[$.i] = 7\n"+second+" }", doc)
+	want := c09Doc(1)
+	want["i"], want["j"] = i1, i2
+	arr, ok := c09StoreIndex(want["arr"].([]any), i1, 7.0)
+	vh.Reach("two stores evaluated")
+	if !ok {
+		vh.Assert(k == ErrRuntime, "C09: an index before the start of the array is a runtime error")
+		return
+	}
+	j := int(i2)
+	if j < 0 {
+		j += len(arr)
+	}
+	var old float64
+	if j >= 0 && j < len(arr) {
+		if f, isNum := arr[j].(float64); isNum {
+			old = f
+		}
+	}
+	var v any
+	switch form {
+	case 0:
+		v = "x"
+	case 1:
+		v = old + 2
+	default:
+		v = old + 1
+	}
+	arr2, ok2 := c09StoreIndex(arr, i2, v)
+	if !ok2 {
+		vh.Assert(k == ErrRuntime, "C09: an index before the start of the array is a runtime error")
+		return
+	}
+	want["arr"] = arr2
+	vh.Assert(k == OK, "C09: two stores succeed")
+	vh.Assert(jsonEqual(back, want), "C09: two successive stores change exactly the two addressed elements (padding slots are independent)")
+}
